@@ -1,7 +1,7 @@
 """C05 — a run always terminates, stops triggering on time, and leaves nothing running."""
 import re
 ID = "C05"
-PROPS = ["F1Verif.Props.C05", "F1Verif.Props.C05Time", "F1Verif.Props.FactsC05", "F1Verif.Props.RefineC19R", "F1Verif.Props.RefineC05S", "F1Verif.Props.RefineC05R"]
+PROPS = ["F1Verif.Props.C05", "F1Verif.Props.C05Time", "F1Verif.Props.FactsC05", "F1Verif.Props.RefineC19R", "F1Verif.Props.RefineC05S", "F1Verif.Props.RefineC05R", "F1Verif.Props.RefineC05U", "F1Verif.Props.RefineC18L"]
 ALSO = ["F1Verif.Props.C18", "F1Verif.Props.Pool"]
 RULE = ("engine C: whole runs of the real Run.Do over (mode: constant, staged, ramp, gaussian, users, file) x (ending: "
         "max-duration, trigger duration, max-iterations, cancel at a seeded instant, setup failure, completion timeout with "
@@ -19,6 +19,7 @@ ASSUMPTIONS = ["Go timers fire, the scheduler eventually runs an enabled gorouti
 
 def corpus():
     return [
+        "run prop=C05 mode=constant rate=2/100ms dist=none dur=400 conc=4 body=1500 timeout=3000 cancel=700",     # C06m: interrupted while already waiting for the iterations after the duration: the wait goes on
         "pool.cancelledstart 200 30",          # D24: a users pool started on a context that has already ended starts nothing
         "pool.cancelledstart 3000 4",
         "run prop=C05 mode=file dur=3000 conc=2 file=u:1500:20000 cancel=2 body=1",      # C05k: cancelled while a large stage is still building its pool
